@@ -25,7 +25,7 @@ import (
 
 // EOp is one command-line operation. Token() is its case-file form (see ocaml/common/editrun.ml).
 type EOp struct {
-	Kind   string // ins rm pe ro
+	Kind   string // ins rm pe ro; implementation-side only (never given to the model): rp cfv
 	It     string // ins: front end after before dxe replace gfront gend gafter gbefore
 	Pad    bool   // rm: remove_pad
 	Target string // GUID text, UI name or volume name
@@ -37,6 +37,10 @@ type EOp struct {
 	// on `(?i)^(?:r)$`, independently of fiano's predicate builders. The model gets Match.
 	Re    bool
 	Match []string
+
+	// cfv (create-fv <offset> <size> <name>): Off, Size; Target = the GUID text of the volume name.
+	// rp (repack <target>): Target. Both are exercised through the property oracles only (p_c02).
+	Off, Size uint64
 
 	Spec *uefigen.File // ins: the generator's spec of Data (not part of the token)
 	Bad  bool          // ins: Data was cut so that NewFile rejects it (generator side only)
@@ -63,6 +67,10 @@ func (o EOp) Token() string {
 			return "pex:" + H([]byte(o.Target)) + ":" + setField(o.Match) + ":" + H(o.Data)
 		}
 		return "pe:" + H([]byte(o.Target)) + ":" + H(o.Data)
+	case "rp":
+		return "rp:" + H([]byte(o.Target))
+	case "cfv":
+		return "cfv:" + N(o.Off) + ":" + N(o.Size) + ":" + H([]byte(o.Target))
 	default:
 		return "ro:" + o.RO + ":" + H([]byte(o.Target))
 	}
@@ -105,6 +113,10 @@ func ParseToken(t string) (EOp, bool) {
 		return EOp{Kind: "rm", Pad: f[1] == "1", Target: string(UnH(f[2]))}, true
 	case len(f) == 3 && f[0] == "pe":
 		return EOp{Kind: "pe", Target: string(UnH(f[1])), Data: UnH(f[2])}, true
+	case len(f) == 2 && f[0] == "rp":
+		return EOp{Kind: "rp", Target: string(UnH(f[1]))}, true
+	case len(f) == 4 && f[0] == "cfv":
+		return EOp{Kind: "cfv", Off: UnN(f[1]), Size: UnN(f[2]), Target: string(UnH(f[3]))}, true
 	case len(f) == 3 && f[0] == "ro":
 		return EOp{Kind: "ro", RO: f[1], Target: string(UnH(f[2]))}, true
 	}
@@ -166,6 +178,10 @@ func (o EOp) cli(dir string, k int) ([]string, error) {
 			return nil, err
 		}
 		return []string{"replace_pe32", o.Target, p}, nil
+	case "rp":
+		return []string{"repack", o.Target}, nil
+	case "cfv":
+		return []string{"create-fv", fmt.Sprintf("%#x", o.Off), fmt.Sprintf("%d", o.Size), o.Target}, nil
 	case "ro":
 		switch o.RO {
 		case "find", "cat", "comment":
@@ -359,6 +375,18 @@ func PFindFull(args []string) string {
 	return "ok"
 }
 
+// createfv <img> <off> <size> <name: 16 bytes> -> as edit: `utk <img> create-fv <off> <size> <name text> save`;
+// the model side is Model/CreateFv.v (create_fv_region) between parse_bios and asm_bios
+func OpCreateFv(args []string) string {
+	var g [16]byte
+	copy(g[:], UnH(args[3]))
+	r := RunEdit(UnH(args[0]), []EOp{{Kind: "cfv", Off: UnN(args[1]), Size: UnN(args[2]), Target: GuidText(g)}})
+	if r.Stage == "ok" {
+		return "ok " + H(r.Out)
+	}
+	return r.Stage
+}
+
 // valid <img> -> "ok 1" | "ok 0": the Go rendering of the independent reader, compared with the
 // Coq rendering (Model/Valid.v)
 func OpValid(args []string) string {
@@ -398,10 +426,22 @@ func PC02(args []string) string {
 	if !ok {
 		return "harness-error bad-op-token"
 	}
-	if ValidImage(img) != "" {
+	// a flash image: the BIOS region is judged by the reader, the descriptor by FlashRegionsOK
+	lo, hi, flash := BiosRange(img)
+	if ValidImage(img[lo:hi]) != "" || (flash && FlashRegionsOK(img) != "") {
 		return "skip"
 	}
-	r := RunEdit(img, ops)
+	r, pan := runEditCatch(img, ops)
+	if pan != nil {
+		for _, o := range ops {
+			// known defect (fixes/C02-createfv-whole-blocks.diff): a create-fv size below the 116
+			// bytes of header, block map and name file makes 'Length - DataOffset' wrap (makeslice)
+			if o.Kind == "cfv" && o.Size < 116 {
+				return "FAIL create-fv-size-not-whole-blocks panic"
+			}
+		}
+		panic(pan)
+	}
 	if strings.HasPrefix(r.Stage, "harness-error") {
 		return r.Stage
 	}
@@ -414,10 +454,39 @@ func PC02(args []string) string {
 	if len(r.Out) != len(img) {
 		return fmt.Sprintf("FAIL size-changed %x -> %x", len(img), len(r.Out))
 	}
-	if why := ValidImage(r.Out); why != "" {
+	if flash {
+		// the regions the saved descriptor declares still tile the flash; none of the operations of
+		// this executor moves the BIOS region
+		if why := FlashRegionsOK(r.Out); why != "" {
+			return "FAIL invalid-output descriptor: " + why
+		}
+		if l2, h2, _ := BiosRange(r.Out); l2 != lo || h2 != hi {
+			return fmt.Sprintf("FAIL invalid-output descriptor: bios region moved %x..%x -> %x..%x", lo, hi, l2, h2)
+		}
+	}
+	if why := ValidImage(r.Out[lo:hi]); why != "" {
+		for _, o := range ops {
+			// known defect (fixes/C02-createfv-whole-blocks.diff): create-fv accepts a size that is not
+			// a multiple of its 4 KiB block size and writes Length = size next to a block map of
+			// size/4096 blocks
+			if o.Kind == "cfv" && o.Size%4096 != 0 && why == fmt.Sprintf("volume@%x: length-vs-block-map", o.Off-uint64(lo)) {
+				return "FAIL create-fv-size-not-whole-blocks invalid-output " + why
+			}
+			// known defect (fixes/C02-repack-empty-volume.diff): repack of a volume without files (it
+			// can only be named by its volume name) writes a nested volume that is its 72-byte header
+			// alone, with a block count of 0
+			if o.Kind == "rp" && strings.HasSuffix(why, "nested length-vs-block-map") && HeaderOnlyNestedVolume(r.Out[lo:hi]) {
+				return "FAIL repack-of-a-volume-without-files invalid-output " + why
+			}
+		}
 		return "FAIL invalid-output " + why
 	}
 	return "ok"
+}
+
+func runEditCatch(img []byte, ops []EOp) (r Result, pan interface{}) {
+	defer func() { pan = recover() }()
+	return RunEdit(img, ops), nil
 }
 
 // p_c03 <img> <expect> <touched> <op>...
@@ -474,12 +543,14 @@ func PC03(args []string) string {
 			touched[int(UnN(s))] = true
 		}
 	}
-	// every byte outside the named volumes is the input's
-	inVols := TopVolumes(img)
+	// every byte outside the named volumes is the input's (for a flash image: also the descriptor
+	// and every other region; the volumes are those of the BIOS region)
+	lo, hi, _ := BiosRange(img)
+	inVols := TopVolumes(img[lo:hi])
 	covered := make([]bool, len(img))
 	for i, v := range inVols {
 		if touched[i] {
-			for j := v.Off; j < v.Off+v.Len && j < len(img); j++ {
+			for j := lo + v.Off; j < lo+v.Off+v.Len && j < len(img); j++ {
 				covered[j] = true
 			}
 		}
@@ -491,10 +562,10 @@ func PC03(args []string) string {
 	}
 	// the expected file sequences
 	want := string(UnH(expect))
-	outVols := TopVolumes(r.Out)
+	outVols := TopVolumes(r.Out[lo:hi])
 	var got []string
 	for _, v := range outVols {
-		got = append(got, AbsVolume(r.Out[v.Off:v.Off+v.Len]))
+		got = append(got, AbsVolume(r.Out[lo+v.Off:lo+v.Off+v.Len]))
 	}
 	if g := strings.Join(got, "|"); g != want {
 		tag := ""
@@ -505,10 +576,23 @@ func PC03(args []string) string {
 	}
 	// remove_pad only: every other file stays at its offset
 	if len(ops) > 0 && allPad(ops) {
-		a, b := FileOffsets(img), FileOffsets(r.Out)
-		for key, off := range b {
-			if old, ok := a[key]; ok && old != off {
-				return fmt.Sprintf("FAIL remove_pad-moved-file %s %x -> %x", key, old, off)
+		// (per GUID and type: a volume may hold duplicates, and when remove_pad turns the first of
+		// them into a pad file the second one is the first that is left - every file that is left
+		// must stand where a file of its GUID and type stood)
+		a, b := FileOffsetSets(img[lo:hi]), FileOffsetSets(r.Out[lo:hi])
+		for key, offs := range b {
+			olds, ok := a[key]
+			if !ok {
+				continue
+			}
+			for _, off := range offs {
+				found := false
+				for _, o := range olds {
+					found = found || o == off
+				}
+				if !found {
+					return fmt.Sprintf("FAIL remove_pad-moved-file %s %x -> %x", key, olds, off)
+				}
 			}
 		}
 	}
@@ -591,7 +675,7 @@ func OpFlat(args []string) string { return "flat" }
 func RegisterAll() {
 	uefiops.RegisterAll()
 	for k, v := range map[string]Op{
-		"flat": OpFlat,
+		"flat": OpFlat, "createfv": OpCreateFv,
 		"edit": OpEdit, "editvalid": OpEditValid, "find": OpFind, "findx": OpFindX, "p_find_full": PFindFull, "valid": OpValid, "guidstr": OpGuidStr, "guidparse": OpGuidParse,
 		"p_c02": PC02, "p_c03": PC03, "p_c02_align": PC02Align, "p_c02_shrink": PC02Shrink, "p_c02_exact": PC02Exact, "p_c03_big": PC03Big, "p_c03_ro": PC03RO, "p_guid": PGuid,
 	} {
